@@ -99,6 +99,9 @@ func c02tRun(in c02tInput) (msg, key string, infra bool) {
 		seen := false
 		for rerr == nil {
 			_, _, cnt, _, _ := svc.VerifPeek()
+			if cnt == varlink.VerifUnknown {
+				break // the tree keeps no such counter: fall back to reading at once
+			}
 			if cnt > 0 {
 				seen = true
 			}
